@@ -14,6 +14,8 @@
  * universally quantified ones) and the index at which memrec_find_var stopped (written by the
  * loop annotation / by memrec_find_var's contract) */
 size_t vg_r, vg_r2, vg_fidx;
+/* the table object built by the harness (typed array of records), for the memmove model */
+void *vg_mh_tab;
 
 /* Units that define VERIF_REAL_MSGS / VERIF_REAL_STDIO before vprelude.h get no bodies for
  * libast_dprintf / fprintf / fflush / time from env.h: goto-instrument 6.11 aborts (invariant
@@ -93,16 +95,42 @@ void *memmove(void *dst, const void *src, size_t n)
     _Bool aligned = doff % sizeof(vg_elem_t) == 0 && soff % sizeof(vg_elem_t) == 0 && n % sizeof(vg_elem_t) == 0;
     __CPROVER_ssize_t d0 = (__CPROVER_ssize_t) (doff / sizeof(vg_elem_t)), ne = (__CPROVER_ssize_t) (n / sizeof(vg_elem_t)),
                       oe = (__CPROVER_ssize_t) (osz / sizeof(vg_elem_t));
-    __CPROVER_ssize_t r1 = (__CPROVER_ssize_t) vg_r - d0, r2 = (__CPROVER_ssize_t) vg_r2 - d0;   /* ghost elements relative to dst */
-    vg_elem_t *de = (vg_elem_t *) dst;
-    const vg_elem_t *se = (const vg_elem_t *) src;
+    /* base of the destination object: the harness names the table it built (vg_mh_tab) so that the
+     * accesses below are plain table[index] accesses */
+    __CPROVER_assert(__CPROVER_same_object(dst, vg_mh_tab) && __CPROVER_same_object(src, vg_mh_tab) &&
+                     __CPROVER_POINTER_OFFSET(vg_mh_tab) == 0, "memmove model: inside the table named by the harness");
+    vg_elem_t *tb = (vg_elem_t *) vg_mh_tab;
+    __CPROVER_ssize_t s0 = (__CPROVER_ssize_t) (soff / sizeof(vg_elem_t));
     vg_elem_t v1, v2;                   /* arbitrary */
     _Bool k1 = 0, k2 = 0;
-    if (aligned && vg_r < (size_t) oe) { v1 = (r1 >= 0 && r1 < ne) ? se[r1] : de[r1]; k1 = 1; }
-    if (aligned && vg_r2 < (size_t) oe) { v2 = (r2 >= 0 && r2 < ne) ? se[r2] : de[r2]; k2 = 1; }
-    __CPROVER_havoc_object(dst);
-    if (k1) de[r1] = v1;
-    if (k2) de[r2] = v2;
+    if (aligned && vg_r < (size_t) oe) { v1 = ((__CPROVER_ssize_t) vg_r >= d0 && (__CPROVER_ssize_t) vg_r < d0 + ne) ? tb[vg_r - d0 + s0] : tb[vg_r]; k1 = 1; }
+    if (aligned && vg_r2 < (size_t) oe) { v2 = ((__CPROVER_ssize_t) vg_r2 >= d0 && (__CPROVER_ssize_t) vg_r2 < d0 + ne) ? tb[vg_r2 - d0 + s0] : tb[vg_r2]; k2 = 1; }
+    __CPROVER_havoc_object(vg_mh_tab);
+    if (k1) tb[vg_r] = v1;
+    if (k2) tb[vg_r2] = v2;
+    return dst;
+}
+#endif
+
+#if defined(VERIF_MEMHASH_MEMMOVE_LOOP) && defined(VERIF_MEMHASH_REALLOC_ELEM_T)
+/* memmove for the BOUNDED units: an element-by-element copy loop (unwound by --unwind), forward when
+ * dst <= src, backward otherwise - the exact semantics for element-aligned moves, which is asserted.
+ * (cbmc's own memmove copies through a char array with array_replace; on an object that cbmc types
+ * as an array of records - any is_fresh / malloc object of sizeof(rec) * constant - that copy has
+ * NO EFFECT: seen in a trace, table[1] kept its old value after memmove(&table[1], &table[2], 48).) */
+void *memmove(void *dst, const void *src, size_t n)
+{
+    typedef VERIF_MEMHASH_REALLOC_ELEM_T vg_elem_t;
+    __CPROVER_assert(n % sizeof(vg_elem_t) == 0 && __CPROVER_POINTER_OFFSET(dst) % sizeof(vg_elem_t) == 0 &&
+                     __CPROVER_POINTER_OFFSET(src) % sizeof(vg_elem_t) == 0, "memmove (bounded model): element-aligned move");
+    __CPROVER_assert(n == 0 || (__CPROVER_r_ok(src, n) && __CPROVER_w_ok(dst, n)), "memmove: source readable, destination writable for n bytes");
+    vg_elem_t *d = (vg_elem_t *) dst; const vg_elem_t *s = (const vg_elem_t *) src;
+    size_t ne = n / sizeof(vg_elem_t);
+    if (!__CPROVER_same_object(dst, src) || __CPROVER_POINTER_OFFSET(dst) <= __CPROVER_POINTER_OFFSET(src)) {
+        for (size_t i = 0; i < ne; i++) d[i] = s[i];
+    } else {
+        for (size_t i = ne; i > 0; i--) d[i - 1] = s[i - 1];
+    }
     return dst;
 }
 #endif
